@@ -55,11 +55,8 @@ use adlt::filter::{Filter, FilterKind, FilterKindContainer};
 
 use bincode::config;
 
-const BINCODE_CONFIG: config::Configuration<
-    config::LittleEndian,
-    config::Fixint,
-    config::NoLimit,
-> = config::legacy(); // todo choose local endianess
+const BINCODE_CONFIG: config::Configuration<config::LittleEndian, config::Fixint, config::NoLimit> =
+    config::legacy(); // todo choose local endianess
 
 pub fn add_subcommand(app: Command) -> Command {
     app.subcommand(
